@@ -86,6 +86,8 @@ def c01Step [DecidableEq α] (k : MKind) (n : Nat) (learning : Aid → Bool) (sh
     !blockedR &&
     -- same key set in all four dictionaries, each agent once
     keys o.rewards == ks && keys o.dones == ks && keys o.infos == ks && decide ks.Nodup &&
+    -- only agents of the simulation are reported
+    ks.all (fun a => decide (a < n)) &&
     -- nobody already reported done is reported again
     ks.all (fun a => decide (a ∉ g.R)) &&
     -- the accepted actions reached the simulation unchanged
@@ -100,7 +102,9 @@ def c01Step [DecidableEq α] (k : MKind) (n : Nat) (learning : Aid → Bool) (sh
 def c01Entry [DecidableEq α] (k : MKind) (n : Nat) (learning : Aid → Bool) (shuffled : Bool)
     (g : GSt) (e : Entry α ω ι) : Bool :=
   match e.op with
-  | .reset => (match e.res with | .resetOk o => decide (keys o).Nodup | _ => false)
+  | .reset => (match e.res with
+               | .resetOk o => decide (keys o).Nodup && (keys o).all (fun a => decide (a < n))
+               | _ => false)
   | .step acts => c01Step k n learning shuffled g acts e
 
 def specC01 [DecidableEq α] (k : MKind) (n : Nat) (learning : Aid → Bool) (shuffled : Bool)
